@@ -166,8 +166,6 @@ Proof.
   - intros k' Hin'. eapply wi_range0, In_keys_remove, Hin'.
 Qed.
 
-(** the wrapper with its handle taken ([UPassOwn]): afterwards the entry and the wrapper are gone — same as a drop *)
-
 (** no temporary wrapper => no borrow entry *)
 Lemma no_temps_no_borrows t w nw :
   NoDup (keys t) -> WsInv t w nw -> filter is_temp w = [] -> filter is_borrow t = [].
